@@ -53,7 +53,11 @@ impl AutoAllocState {
             .remove(&id)
             .unwrap_or_else(|| panic!("Queue {id} not found"));
         for (alloc_id, _) in queue.allocations {
-            assert!(self.allocation_to_queue.remove(&alloc_id).is_some());
+            // Allocation IDs are assigned by external allocation managers, so another queue might
+            // own an allocation with the same ID. Forget only allocations of the removed queue.
+            if self.allocation_to_queue.get(&alloc_id) == Some(&id) {
+                self.allocation_to_queue.remove(&alloc_id);
+            }
         }
     }
 
